@@ -173,3 +173,14 @@ Proof.
   intros B chunks e p Hs E.
   exact (held_bound_new tks tk_init tk_step tk_fin tcnt tk_inv armor_tinv_held tk_init_inv armor_tinv_feed tk_fin_ok B chunks e p Hs E).
 Qed.
+
+(* ------------------------------------------------------------------ no hang on arbitrary input *)
+Lemma armor_total : forall doc chunks sz fuel,
+  List.concat chunks = doc -> (forall j, (1 <= sz j)%nat) ->
+  (List.length (fst (armor_scan doc)) < fuel)%nat ->
+  s_end (armor_stream_decode chunks sz fuel) <> None /\ sp_stuck (s_prod (armor_stream_decode chunks sz fuel)) = false.
+Proof.
+  intros doc chunks sz fuel Hc Hsz Hf. rewrite scan_events in Hf. cbn [fst] in Hf. unfold a_events in Hf. rewrite <- Hc in Hf.
+  pose proof (stream_decode_total tks tk_init tk_step tk_fin chunks sz fuel Hsz Hf) as E.
+  split; [exact E|]. apply armor_released. exact E.
+Qed.
